@@ -10,6 +10,10 @@ Extends `Chunker.lean` (nothing there is changed):
 * `padStream` / `padPieces` / `fileStarts` — `Repository.snapshot._stream_files` (replicat/repository.py): files are
   concatenated in order, and *when the next file starts* the previous one is padded with
   `Gen.padding len Gen.align` zero bytes (`-(len) % alignment`, translated from the source); nothing after the last.
+* `splitEvery` / `resplit` / `adapterPieces` — input blocks and size thresholds: what reaches the adapter's buffer when blocks
+  longer than a threshold are cut into pieces first; `Gen.adapterBlockThresholds` (extracted) lists the thresholds of the code
+  that exists.  `feedBlockFinal` is the loop shape this excludes (piecewise feeding with the *block's* finality), kept only for
+  the negation witness in `Properties/C11.lean`.
 -/
 namespace Replicat
 
@@ -102,6 +106,48 @@ def padPrefix : List Bytes → Bytes
 def fileStarts : Nat → List Bytes → List Nat
   | _, [] => []
   | off, f :: rest => off :: fileStarts (off + f.length + (padOf f.length).length) rest
+
+/-! ### input blocks and size thresholds -/
+
+/-- `block[start : start + t] for start in range(0, len(block), t)` for a block longer than `t`, the block itself otherwise
+(`t = 0`: never cut).  Fuel = the block length (every step removes `t ≥ 1` bytes). -/
+def splitEvery (t : Nat) : Nat → Bytes → List Bytes
+  | 0, b => [b]
+  | fuel + 1, b => if t = 0 ∨ b.length ≤ t then [b] else b.take t :: splitEvery t fuel (b.drop t)
+
+/-- every block longer than `t` cut into pieces of `t` bytes -/
+def resplit (t : Nat) (blocks : List Bytes) : List Bytes := blocks.flatMap (fun b => splitEvery t b.length b)
+
+/-- what reaches the adapter's buffer, piece by piece, when the caller hands over `blocks`: one re-splitting per size threshold
+the extractor finds in `gclmulchunker.__call__` (`Gen.adapterBlockThresholds`; none in the code this model mirrors, so `feed`
+takes the blocks as they come — `C11.adapter_takes_blocks_whole`) -/
+def adapterPieces (blocks : List Bytes) : List Bytes :=
+  Gen.adapterBlockThresholds.foldl (fun ps t => resplit t ps) blocks
+
+/-- NOT the adapter — the loop shape excluded by `Gen.adapterBlockThresholds = []` and `Gen.adapterFinalIsLookaheadNone`:
+a block is appended to the buffer in pieces and `next_cut` runs after every piece with one and the same finality flag. -/
+def drainPieces (p : CParams) (h : Hash) (final : Bool) : Bytes → List Bytes → Option (List Bytes × Bytes)
+  | buf, [] => some ([], buf)
+  | buf, pc :: pcs =>
+    match drain p h final (drainFuel (buf ++ pc)) (buf ++ pc) with
+    | none => none
+    | some (cs, rest) =>
+      match drainPieces p h final rest pcs with
+      | none => none
+      | some (cs', rest') => some (cs ++ cs', rest')
+
+/-- NOT the adapter: blocks longer than `t` are fed in pieces of `t` bytes, every piece with the finality of its *block*
+("there is no further block") instead of "there is no further piece" -/
+def feedBlockFinal (p : CParams) (h : Hash) (t : Nat) : Bytes → List Bytes → Option (List Bytes)
+  | _, [] => some []
+  | buf, [blk] => (drainPieces p h true buf (splitEvery t blk.length blk)).map (·.1)
+  | buf, blk :: q :: ps =>
+    match drainPieces p h false buf (splitEvery t blk.length blk) with
+    | none => none
+    | some (cs, rest) =>
+      match feedBlockFinal p h t rest (q :: ps) with
+      | none => none
+      | some cs' => some (cs ++ cs')
 
 end Sync
 end Replicat
